@@ -32,10 +32,40 @@ RULES = {
                  "-p tcp -m tcp ! --tcp-flags FIN,SYN,RST,ACK SYN -j ACCEPT"),
     "loglevel": ("-j LOG --log-level debug",
                  "-j LOG --log-level 7"),
+    # further spellings (family I3); rules that differ in one feature only are separate ids, so a normaliser
+    # that is too coarse (merges them) is as visible as one that is too fine
+    "tcp8080":  ("-j ACCEPT -s 10.1.1.1 -d 10.1.2.1 -p tcp --dport 8080",
+                 "-s 10.1.1.1/32 -d 10.1.2.1/32 -p tcp -m tcp --dport 8080 -j ACCEPT"),
+    "tcp80net": ("-j ACCEPT -s 10.1.1.0/31 -d 10.1.2.1 -p tcp --dport 80",
+                 "-s 10.1.1.0/31 -d 10.1.2.1/32 -p tcp -m tcp --dport 80 -j ACCEPT"),
+    "tcp80h0":  ("-j ACCEPT -s 10.1.1.0 -d 10.1.2.1 -p tcp --dport 80",
+                 "-s 10.1.1.0/32 -d 10.1.2.1/32 -p tcp -m tcp --dport 80 -j ACCEPT"),
+    "sport":    ("-j ACCEPT -p TCP --sport 1024: --dport 22",
+                 "-p tcp -m tcp --sport 1024:65535 --dport 22 -j ACCEPT"),
+    "lowports": ("-j ACCEPT -p udp --dport :1023",
+                 "-p udp -m udp --dport 0:1023 -j ACCEPT"),
+    "udp1024x": ("-j ACCEPT -d 10.1.2.0/30 -p udp --dport 1024:65000",
+                 "-d 10.1.2.0/30 -p udp -m udp --dport 1024:65000 -j ACCEPT"),
+    "vrrp":     ("-j ACCEPT -p vrrp", "-p 112 -j ACCEPT"),
+    "proto113": ("-j ACCEPT -p 113", "-p 113 -j ACCEPT"),
+    "icmp8":    ("-j ACCEPT -p icmp --icmp-type 8", "-p icmp -m icmp --icmp-type 8 -j ACCEPT"),
+    "icmp0":    ("-j ACCEPT -p icmp --icmp-type 0", "-p icmp -m icmp --icmp-type 0 -j ACCEPT"),
+    "state1":   ("-j ACCEPT -m state --state ESTABLISHED", "-m state --state ESTABLISHED -j ACCEPT"),
+    "possrc":   ("-j DROP -s 10.1.1.2", "-s 10.1.1.2/32 -j DROP"),
+    "negold":   ("-j DROP -s ! 10.1.1.3", "! -s 10.1.1.3/32 -j DROP"),
+    "markhex":  ("-j MARK --set-mark 0x10", "-j MARK --set-xmark 0x10/0xffffffff"),
+    "markmask": ("-j MARK --set-xmark 0x1/0xff", "-j MARK --set-xmark 0x1/0xff"),
+    "loginfo":  ("-j LOG --log-level 6", "-j LOG --log-level 6"),
+    "ifin":     ("-j ACCEPT -i eth1", "-i eth1 -j ACCEPT"),
+    "ifout":    ("-j ACCEPT -o eth1", "-o eth1 -j ACCEPT"),
     "drop":     ("-j DROP", "-j DROP"),
     "rawdrop":  ("-j DROP -s 10.1.2.2", "-s 10.1.2.2/32 -j DROP"),
 }
-ACT = {"tcp80": "ACCEPT", "udprange": "ACCEPT", "state": "ACCEPT", "negsrc": "DROP", "mark": "MARK",
+ACT = {"tcp8080": "ACCEPT", "tcp80net": "ACCEPT", "tcp80h0": "ACCEPT", "sport": "ACCEPT", "lowports": "ACCEPT",
+       "udp1024x": "ACCEPT", "vrrp": "ACCEPT", "proto113": "ACCEPT", "icmp8": "ACCEPT", "icmp0": "ACCEPT",
+       "state1": "ACCEPT", "possrc": "DROP", "negold": "DROP", "markhex": "MARK", "markmask": "MARK",
+       "loginfo": "LOG", "ifin": "ACCEPT", "ifout": "ACCEPT",
+       "tcp80": "ACCEPT", "udprange": "ACCEPT", "state": "ACCEPT", "negsrc": "DROP", "mark": "MARK",
        "nosyn": "ACCEPT", "loglevel": "LOG", "drop": "DROP", "rawdrop": "DROP"}
 
 
